@@ -401,3 +401,97 @@ def callers_of(ctx, pat, crates=None):
         if pts:
             out[f.skey] = (f, pts)
     return out
+
+
+ARITH = re.compile(r"core::ops::arith::(Add|Sub|Neg)>::(add|sub|neg)$|::(hexdigest|digest|from_digest|from_hexdigest|into_inner|"
+                   r"fast_setsum|metadata|to_string|and_then|unwrap_or_default)$")
+
+
+def var_names(fn, op):
+    """Debug names of the user variables in the backward slice of an operand (through refs, copies,
+    arithmetic and Add/Sub operator calls)."""
+    names = set()
+    work = [op]
+    seen_pts = set()
+    while work:
+        o = work.pop()
+        srcs, locs = P.value_slice(fn, o)
+        for l in locs:
+            n = fn.local_name(l)
+            if n:
+                names.add(n)
+        for s in srcs:
+            if s["k"] == "call" and ARITH.search(s["callee"]) and s["pt"] not in seen_pts:
+                seen_pts.add(s["pt"])
+                work.extend(s["t"]["args"])
+    return names
+
+
+def only_errors_from(fn, bb):
+    """Every return reachable from the start of block bb is an error return (and one is reachable),
+    or the block can only diverge (panic)."""
+    errs = P.error_points(fn)
+    if P.reach(fn, [(bb, 0)], P.return_points(fn), avoid=errs) is not None:
+        return False
+    return True
+
+
+def equality_gates(fn, ty_rx=r"setsum::Setsum"):
+    """Switches whose discriminant is a PartialEq::{eq,ne} call (or Eq/Ne binop) — optionally restricted
+    to operand types matching ty_rx — with the edge taken when the operands DIFFER.
+    [{'bb','a','b','differ_label','equal_label','fails_closed','line'}]"""
+    rx = re.compile(ty_rx) if ty_rx else None
+    out = []
+    for b in P.switch_blocks(fn):
+        for s in cond_sources(fn, b.idx):
+            if s["k"] == "call" and re.search(r"PartialEq.*>::(eq|ne)$|cmp::PartialEq::(eq|ne)$", s["callee"]):
+                t = s["t"]
+                if len(t["args"]) < 2:
+                    continue
+                if rx is not None and not rx.search(t.get("ga", "")):
+                    continue
+                name = s["callee"].rsplit("::", 1)[-1]
+                negs = sum(1 for x in cond_sources(fn, b.idx) if x["k"] == "un" and x["op"] == "Not")
+                # label taken when the call returned false is sw:0
+                false_lab, true_lab = "sw:0", "otherwise"
+                if negs % 2:
+                    false_lab, true_lab = true_lab, false_lab
+                differ = false_lab if name == "eq" else true_lab
+                equal = true_lab if name == "eq" else false_lab
+                succ = dict(b.succs)
+                if differ not in succ:
+                    continue
+                out.append({"bb": b.idx, "a": var_names(fn, t["args"][0]), "b": var_names(fn, t["args"][1]),
+                            "differ_label": differ, "equal_label": equal, "line": t["sp"][1], "pt": s["pt"],
+                            "fails_closed": only_errors_from(fn, succ[differ]), "t": t})
+                break
+    return out
+
+
+def find_gate(gates, a, b):
+    """A gate comparing variable sets a and b (either order), failing closed."""
+    a, b = set(a), set(b)
+    for g in gates:
+        if (a <= g["a"] and b <= g["b"]) or (a <= g["b"] and b <= g["a"]):
+            return g
+    return None
+
+
+def origin_chain(fn, op, suffixes, arg=0):
+    """op originates in a call ending suffixes[0], whose argument `arg` originates in a call ending
+    suffixes[1], ...  A suffix starting with '.' instead requires a read of that field."""
+    if not suffixes:
+        return True
+    want = suffixes[0]
+    for s in P.origins(fn, op):
+        if want.startswith("."):
+            if s["k"] == "field" and s["f"] == want[1:]:
+                return origin_chain(fn, op, suffixes[1:], arg) if len(suffixes) > 1 else True
+        elif s["k"] == "call" and s["callee"].endswith(want):
+            t = s["t"]
+            if len(suffixes) == 1:
+                return True
+            for a in t["args"][:max(1, arg + 1)] if arg == 0 else [t["args"][arg]]:
+                if origin_chain(fn, a, suffixes[1:], 0):
+                    return True
+    return False
